@@ -158,3 +158,73 @@ func VerifC09Merges() {
 	})
 	vndObserve("sum0", sum0)
 }
+
+func init() { vndRegister("VerifC09RecordMerges", VerifC09RecordMerges) }
+
+// VerifC09RecordMerges: record columns merge by decoding the stored value and the delta, calling
+// the user's merge function and encoding the result. Two goroutines merge arbitrary records
+// into rows of two different blocks (their commits hold different block latches, so the merge
+// functions may run side by side), a third merges into the row of block 0 as well. Each row ends
+// up as its initial content followed by every delta merged into it (the merge function appends),
+// in apply order; no data race between the merges.
+func VerifC09RecordMerges() {
+	c := NewCollection(Options{Capacity: vndParam("cap")})
+	c.CreateColumn("r", ForRecord(func() *vRec { return new(vRec) }, WithMerge(func(v, d *vRec) *vRec {
+		v.b = append(v.b, d.b...)
+		return v
+	})))
+	rows := [2]uint32{16383, 16384}
+	L := vndParam("maxLen")
+	var init [2]string
+	for i := range rows {
+		init[i] = vndString("init", L)
+	}
+	c.fill.Grow(rows[1])
+	c.fill.Set(rows[0])
+	c.fill.Set(rows[1])
+	c.count = 2
+	c.Query(func(txn *Txn) error {
+		for i, r := range rows {
+			i := i
+			txn.QueryAt(r, func(Row) error { return txn.Record("r").Set(&vRec{b: []byte(init[i])}) })
+		}
+		return nil
+	})
+	N := vndParam("N") // thread i merges into row i%2
+	var d [3]string
+	var tid [3]int
+	for i := 0; i < N; i++ {
+		i := i
+		d[i] = vndString("delta", L)
+		tid[i] = vndGo(func() {
+			c.QueryAt(rows[i%2], func(Row) error { return nil })
+			c.Query(func(txn *Txn) error {
+				return txn.QueryAt(rows[i%2], func(Row) error { return txn.Record("r").Merge(&vRec{b: []byte(d[i])}) })
+			})
+		})
+	}
+	for i := 0; i < N; i++ {
+		vndJoin(tid[i])
+	}
+	var got [2]string
+	c.Query(func(txn *Txn) error {
+		for i, r := range rows {
+			i := i
+			txn.QueryAt(r, func(Row) error {
+				v, ok := txn.Record("r").Get()
+				vndAssert(ok, "the record lost its value")
+				got[i] = string(v.(*vRec).b)
+				return nil
+			})
+		}
+		return nil
+	})
+	vndAssert(got[1] == init[1]+d[1], "record of block 1 is not its initial value merged with its delta")
+	if N < 3 {
+		vndAssert(got[0] == init[0]+d[0], "record of block 0 is not its initial value merged with its delta")
+	} else {
+		vndAssert(got[0] == init[0]+d[0]+d[2] || got[0] == init[0]+d[2]+d[0], "record of block 0 is not its initial value merged with both deltas in some order")
+	}
+	vndObserveStr("r0", got[0])
+	vndObserveStr("r1", got[1])
+}
